@@ -66,7 +66,7 @@ def run(tier):
     hist = 0; n = 0; covered = set()
     for p in paths:
         res = results[p]
-        for b in res['broken']: R.broke(b)
+        for b in res['broken']: R.broke_at(p, b)
         for it in res['items']:
             n += 1; hist += it['histories']; covered.add(it['name'])
             R.ob(ok=not it['problems'], key=('equiv', it['rule'], it['mode']))
@@ -83,7 +83,7 @@ def run(tier):
     kinds = collections.Counter(); seen = set()
     for p in p2:
         res = r2[p]
-        for b in res['broken']: R.broke(b)
+        for b in res['broken']: R.broke_at(p, b)
         for kind, disp, site, probs in res['items']:
             if (kind, disp) in seen: continue
             seen.add((kind, disp)); kinds[kind] += 1
